@@ -241,6 +241,14 @@ func c06Judge(c *run.Ctx, s streamCase, rkind string, rd io.Reader) {
 			fail("panic/"+T, "ReadPacket panicked on frame "+itoa(k)+": "+res.Panic.String())
 			return
 		}
+		if f.Kind == "padded-remlen" && !res.Accepted() && drawn <= int64(h.HdrLen) {
+			// a decoder may refuse a remaining length that is not in minimal
+			// form (MQTT requires the minimal form): the call then fails inside
+			// the fixed header, which is outside the statement, and the
+			// connection is lost anyway
+			c.Count("skipped", "non-minimal-remaining-length-refused", 1)
+			return
+		}
 		if drawn != int64(h.Total()) {
 			dir := "under-read"
 			if drawn > int64(h.Total()) {
